@@ -52,6 +52,11 @@ CHECKS = {
             "Layout: generated programs are re-rendered with random indent units, blank lines, comment lines at any column, trailing comments (also on block headers), trailing whitespace and compact/spacey token spacing; the emitted C++ must not change. Accounting: with the REDUINO_VERIF hook every line the parser consumes without a node is classified; anything outside the fixed no-meaning set is a violation, bucketed by call site + statement kind.",
             "The silent `unknown -> ignore` path is a recorded finding identified by call site + statement kind (23 kinds listed); any other dropped kind is reported. Line continuations / triple-quoted strings are not generated.",
             "DESIGN.md 3/C07"),
+    "C06": ("exploration",
+            "grammar-based generation (widest profile, all devices/methods, hostile printable strings) with a validity-predicate oracle: one setup()/loop(), host g++ acceptance against the mock core, link for a sample",
+            "Every accepted generated script must produce a sketch with exactly one setup() and loop() that g++ (gnu++11, -fno-exceptions, -fpermissive) accepts against the mock Arduino core and mock Servo/LiquidCrystal headers; undeclared identifiers, inconsistent types, bad escaping and missing headers are compile errors there too.",
+            "Mock core + host g++ stand in for the AVR toolchain and real libraries; compile-level findings already recorded are excluded by construction.",
+            "DESIGN.md 3/C06"),
 }
 
 PENDING = {}
